@@ -18,9 +18,11 @@ echo "== demo WITHOUT change (expect ok):"
 (go test -vet=off -count=1 -run "$DEMOPAT" $PK 2>&1 | grep -E "^(ok|FAIL|---|panic)" | head -8)
 git apply $P
 echo "== my checks against the change:"
+exec 9>/repo/.git/verif-build.lock; flock 9   # nobody else builds while the change is in /repo
 git -C /repo apply $P || { echo "patch does not apply to /repo"; exit 9; }
 for id in ${@:-$ID}; do
-  /verif/check.sh "$id" quick 2>&1 | grep -E "^(VIOLATION|KNOWN|BROKEN|INCONCLUSIVE|  signature|C[0-9]+ tier)" | head -8
+  VERIF_NO_BUILD_LOCK=1 /verif/check.sh "$id" quick 2>&1 | grep -E "^(VIOLATION|KNOWN|BROKEN|INCONCLUSIVE|  signature|C[0-9]+ tier)" | head -8
 done
 git -C /repo checkout -- .
+exec 9>&-
 git -C /repo status --short | head -3
